@@ -559,6 +559,12 @@ class FitEnv:
             base = nm.replace("_", "").replace("[", "").replace("]", "")
             for idx in np.ndindex(w.shape):
                 w[idx] = core.var(f"{base}t{t}_" + "_".join(str(i) for i in idx))
+        if hasattr(self.mdl, "W_skip_"):
+            # the hierarchical proximal step that follows is only defined for non-zero skip rows (C05's scope)
+            Ws = self.mdl.W_skip_
+            groups = getattr(self.mdl, "groups_", None) or [[j] for j in range(Ws.shape[0])]
+            for g in groups:
+                harness.assume(core.sym_sqrt(sum((to_rat(x) * to_rat(x) for j in g for x in Ws[j]), K(0))) > 0)
 
     def current_param_names(self):
         pn = param_names(self.family)
